@@ -1,0 +1,46 @@
+//go:build verif
+
+package fasthttp
+
+import (
+	"net"
+	"sync/atomic"
+	"time"
+)
+
+// Thin pass-through accessors for the TCPDialer checks (property C41), compiled only with -tags verif.
+
+// VerifTCPDialerSetAddrsIdx stores v into the rotation counter of the cached DNS entry for addr.
+// It reports false when there is no cached entry.
+func VerifTCPDialerSetAddrsIdx(d *TCPDialer, addr string, v uint32) bool {
+	item, ok := d.tcpAddrsMap.Load(addr)
+	e, ok2 := item.(*tcpAddrEntry)
+	if !ok || !ok2 || e == nil {
+		return false
+	}
+	atomic.StoreUint32(&e.addrsIdx, v)
+	return true
+}
+
+// VerifTCPDialerAddrsIdx reads the rotation counter of the cached DNS entry for addr.
+func VerifTCPDialerAddrsIdx(d *TCPDialer, addr string) (uint32, bool) {
+	item, ok := d.tcpAddrsMap.Load(addr)
+	e, ok2 := item.(*tcpAddrEntry)
+	if !ok || !ok2 || e == nil {
+		return 0, false
+	}
+	return atomic.LoadUint32(&e.addrsIdx), true
+}
+
+// VerifTCPDialerSem returns len and cap of the dial semaphore (0, 0 when there is none yet).
+func VerifTCPDialerSem(d *TCPDialer) (length, capacity int) {
+	if d.concurrencyCh == nil {
+		return 0, 0
+	}
+	return len(d.concurrencyCh), cap(d.concurrencyCh)
+}
+
+// VerifTCPDialerTryDial forwards to TCPDialer.tryDial with the dialer's own semaphore.
+func VerifTCPDialerTryDial(d *TCPDialer, network, addr string, deadline time.Time) (net.Conn, error) {
+	return d.tryDial(network, addr, deadline, d.concurrencyCh)
+}
